@@ -850,7 +850,7 @@ def suffix_observable_cases(rng, big):
     for n in (0, 1, 2, 250, 251, 505, 506, 1100) + ((4096, 65520) if big else ()):
         tl = rng.choice([0, 7, 7, 16])
         f = pc.rand_tm_args(rng, 1)[0]
-        pkts.append((_layout_fast(*f, pc.rbytes(rng, tl), pc.rbytes(rng, n)), tl))
+        pkts.append((_layout_fast(*f, pc.rbytes(rng, tl), pc.rbytes(rng, min(n, 65527 - tl))), tl))
     for target in (0x0000, 0xFFFF, 0x00FF, 0xFF00):
         f = pc.rand_tm_args(rng, 1)[0]
         st = pc.rbytes(rng, 7)
